@@ -421,7 +421,8 @@ func (g *gen) fill(s *Spec) {
 			s.Subpaths = append(s.Subpaths, p)
 		}
 	case "ts":
-		if g.tls && r.Chance(1, 3) {
+		wasPT := s.Proto == "TLS_PASSTHROUGH"
+		if g.tls && (r.Chance(1, 3) || (s.Proto != "" && !wasPT && r.Chance(1, 3))) && !(wasPT && r.Chance(1, 2)) {
 			s.LName, s.Proto = "tls-passthrough", "TLS_PASSTHROUGH"
 			s.Host = vh.Pick(r, hosts[:4])
 		} else {
